@@ -638,9 +638,14 @@ def check_pa_methods(res, facts, owner, prop):
             got = post.get('accumulator').term if o.status == 'returned' else None
             exp = t_f2i(Poly.const(mask) * t_frem(absp, ONE, o.ctx), 0, 2 ** 32 - 1, o.ctx)
             ch = set(changed_fields(pre, post))
-            if prop == 'C11':
+            if prop == 'C11' and part == 'p>=0':
                 res.ob('R-PHASE', inst0 + ' set_phase|' + part, got == exp and ch <= {'accumulator', 'last_accumulator', 'rolled_over'},
-                       'accumulator after set_phase = %r; expected trunc(mask * (|p| mod 1)); changed %s' % (got, sorted(ch)), where_of(facts, PAF + 'set_phase'), key='R-PHASE:set_phase:%s:%s' % (inst0, part))
+                       'accumulator after set_phase = %r; expected trunc(mask * (p mod 1)); changed %s' % (got, sorted(ch)), where_of(facts, PAF + 'set_phase'), key='R-PHASE:set_phase:%s:%s' % (inst0, part))
+            elif prop == 'C11':
+                # negative p: the statement only requires a phase in [0,1) that depends on p through (p mod 1) alone
+                only_mod = got is not None and p_only_inside_frem(got, ('sym', 'p'))
+                res.ob('R-PHASE', inst0 + ' set_phase|' + part, only_mod and ch <= {'accumulator', 'last_accumulator', 'rolled_over'},
+                       'accumulator after set_phase(p<0) = %r; p must occur only as (+-p mod 1); changed %s' % (got, sorted(ch)), where_of(facts, PAF + 'set_phase'), key='R-PHASE:set_phase:%s:%s' % (inst0, part))
             if got is not None:
                 lo, hi = o.ctx.rng(got)
                 res.ob('R-PHASE', inst0 + ' set_phase keeps acc <= mask|' + part, lo >= 0 and hi <= mask, 'accumulator in [%s,%s]' % (lo, hi), where_of(facts, PAF + 'set_phase'), key='R-PHASE:set_phase-inv:%s:%s' % (inst0, part))
@@ -664,6 +669,21 @@ def check_pa_methods(res, facts, owner, prop):
         exp = t_f2i(Poly.const(1 << total) * f.term * inv_poly(fsym), 0, 2 ** 32 - 1, o.ctx)
         res.ob('R-INC', inst0 + ' set_frequency', got == exp and ch <= {'increment'}, 'increment = %r; expected trunc(2^%d * f / fs); changed %s' % (got, total, sorted(ch)), where_of(facts, PAF + 'set_frequency'), key='R-INC:set_frequency:' + inst0)
     return n
+
+
+def p_only_inside_frem(term, sym):
+    """every occurrence of `sym` in term is inside an atom frem(+-sym, 1)"""
+    for a in term.atoms():
+        if a == sym:
+            return False
+        if a[0] == 'frem':
+            inner, q = a[1], a[2]
+            if q.const_value() == 1 and (inner == Poly.atom(sym) or inner == -Poly.atom(sym)):
+                continue
+        for x in a[1:]:
+            if isinstance(x, Poly) and not p_only_inside_frem(x, sym):
+                return False
+    return True
 
 
 def check_lfo_wrappers(res, facts):
